@@ -270,7 +270,7 @@ def main():
         o = list(range(w))
         rng.shuffle(o)
         order[w] = o
-    nrand = 3000 if rep.tier == "quick" else 200000
+    nrand = 3000 if rep.tier == "quick" else 2000000
     xml = make_schema(order)
     gen = build.gen_headers(xml, "rel")
     if gen["rc"] != 0:
